@@ -17,6 +17,11 @@
  *                            well-formed certificate of <bytes> bytes (large subjectAltName)
  *          not-before-2^32   leaf valid from now + 2^32 s - 1 day (valid only in 32-bit arithmetic)
  *          clock-2^32        the verifier's clock is 2^32 s ahead (everything expired 136 years ago)
+ *          forged-intermediate  the presented intermediate names the trusted root as its issuer but is signed with the attacker's
+ *                            key; the leaves under it are genuine for the attacker's keys
+ *          replay-sig        cross-session replay: an honest session is run first and the peer's signatures (ServerKeyExchange /
+ *                            CertificateVerify) are recorded; then a forger WITHOUT the private key presents the same chain and
+ *                            replays them in a new session with fresh randoms
  *          no-cert           client has no certificate although the server asks for one
  *          empty-cert        TLCP / TLS 1.2: the client's Certificate message carries an empty list (built by a
  *                            link-time interposer in the client thread, transcripts stay consistent);
@@ -32,6 +37,7 @@ static pki_t pki; static int pki_ready;
 static cred_t bad_leaf_s, bad_leaf_c;      /* leaves issued by a non-CA certificate */
 static cred_t alt_leaf_s, alt_leaf_c;      /* second valid leaves under the same CA */
 static cred_t senc_b;                      /* TLCP encryption certificate issued by the other hierarchy's CA */
+static cred_t ca_forged, ssign_f, senc_f, csign_f;   /* an intermediate that NAMES the trusted root as issuer but is signed with the attacker's key, and leaves under it */
 static pki_t *get_pki(void) {
 	if (!pki_ready) {
 		ent_seed(0xC09000, -1); ent_clock(T0);
@@ -42,6 +48,15 @@ static pki_t *get_pki(void) {
 		if (mk_leaf(&alt_leaf_s, &pki.ca[0], "localhost", X509_KU_DIGITAL_SIGNATURE, T0 - DAY, T0 + 365 * DAY) != 1) return NULL;
 		if (mk_leaf(&alt_leaf_c, &pki.ca[0], "client", X509_KU_DIGITAL_SIGNATURE, T0 - DAY, T0 + 365 * DAY) != 1) return NULL;
 		if (mk_leaf(&senc_b, &pki.ca2, "localhost", X509_KU_KEY_ENCIPHERMENT, T0 - DAY, T0 + 365 * DAY) != 1) return NULL;
+		{
+			cred_t fake_root = pki.root;            /* the trusted root's name ... */
+			fake_root.key = pki.root2.key;          /* ... with the attacker's key */
+			if (sm2_key_generate(&ca_forged.key) != 1 || mk_name(&ca_forged, "Sub CA A 0") != 1
+				|| mk_cert(&ca_forged, &fake_root, 1, 0, X509_KU_KEY_CERT_SIGN, T0 - 2 * DAY, T0 + 365 * DAY) != 1
+				|| mk_leaf(&ssign_f, &ca_forged, "localhost", X509_KU_DIGITAL_SIGNATURE, T0 - DAY, T0 + 365 * DAY) != 1
+				|| mk_leaf(&senc_f, &ca_forged, "localhost", X509_KU_KEY_ENCIPHERMENT, T0 - DAY, T0 + 365 * DAY) != 1
+				|| mk_leaf(&csign_f, &ca_forged, "client", X509_KU_DIGITAL_SIGNATURE, T0 - DAY, T0 + 365 * DAY) != 1) return NULL;
+		}
 		pki_ready = 1;
 	}
 	return &pki;
@@ -58,6 +73,7 @@ static void handle(size_t nw, char **w) {
 		uint8_t repl[64]; size_t repllen = 0;
 		uint8_t *vanchors = NULL; size_t vanchorslen = 0; int anon_client = 0;
 		uint8_t *big = NULL; size_t biglen = 0; int bigpos = -1; static cred_t far_leaf_s, far_leaf_c;
+		int replay = 0, pass; sigstore_t store; memset(&store, 0, sizeof store);
 		int tlcp = protocol == TLS_protocol_tlcp;
 		if (!k || protocol < 0) { printf("ERR setup"); return; }
 		S = calloc(1, sizeof(*S));
@@ -95,12 +111,19 @@ static void handle(size_t nw, char **w) {
 			if (verifier_is_client) { sleaf = fl; skey = &fl->key; } else { cleaf = fl; ckey = &fl->key; }
 		}
 		else if (!strcmp(df, "clock-2^32")) vclock = T0 + ((time_t)1 << 32);
+		else if (!strcmp(df, "replay-sig")) replay = 1;
+		else if (!strcmp(df, "forged-intermediate")) {
+			if (verifier_is_client) { sleaf = &ssign_f; skey = &ssign_f.key; sencleaf = &senc_f; sekey = &senc_f.key; } else { cleaf = &csign_f; ckey = &csign_f.key; }
+		}
 		else { printf("ERR bad-defect"); free(S); return; }
 
 		if (!strcmp(df, "untrusted-root") || (!strcmp(df, "anchors-oversize") && verifier_is_client)) {
 			/* chain under the second hierarchy */
 			if (verifier_is_client) { chain_add(&schain, &schainlen, sleaf); if (tlcp) chain_add(&schain, &schainlen, sencleaf); chain_add(&schain, &schainlen, &k->ca2); chain_build(&cchain, &cchainlen, k, cleaf, NULL); }
 			else { chain_add(&cchain, &cchainlen, cleaf); chain_add(&cchain, &cchainlen, &k->ca2); chain_build(&schain, &schainlen, k, sleaf, tlcp ? sencleaf : NULL); }
+		} else if (!strcmp(df, "forged-intermediate")) {
+			if (verifier_is_client) { chain_add(&schain, &schainlen, sleaf); if (tlcp) chain_add(&schain, &schainlen, sencleaf); chain_add(&schain, &schainlen, &ca_forged); chain_build(&cchain, &cchainlen, k, cleaf, NULL); }
+			else { chain_add(&cchain, &cchainlen, cleaf); chain_add(&cchain, &cchainlen, &ca_forged); chain_build(&schain, &schainlen, k, sleaf, tlcp ? sencleaf : NULL); }
 		} else if (!strcmp(df, "issuer-not-ca")) {
 			if (verifier_is_client) { chain_add(&schain, &schainlen, sleaf); if (tlcp) chain_add(&schain, &schainlen, sencleaf); chain_add(&schain, &schainlen, &k->csign); chain_add(&schain, &schainlen, &k->ca[0]); chain_build(&cchain, &cchainlen, k, cleaf, NULL); }
 			else { chain_add(&cchain, &cchainlen, cleaf); chain_add(&cchain, &cchainlen, &k->ssign); chain_add(&cchain, &cchainlen, &k->ca[0]); chain_build(&schain, &schainlen, k, sleaf, tlcp ? sencleaf : NULL); }
@@ -137,6 +160,23 @@ static void handle(size_t nw, char **w) {
 		}
 		S->c.seed = seed * 2 + 1; S->s.seed = seed * 2 + 2;
 		if (verifier_is_client) S->c.clock = vclock; else S->s.clock = vclock;
+		for (pass = 0; replay && pass < 1; pass++) {
+			/* session 1: honest, the signatures of the verifier's peer are recorded */
+			endpoint_t *peer = verifier_is_client ? &S->s : &S->c;
+			peer->sig_mode = 1; peer->sigs = &store; S->c.post = S->s.post = 1;
+			session_run(S, 3000, 0);
+			if (S->c.hs_ret != 1 || S->s.hs_ret != 1 || store.n < 1) { printf("ERR replay-first-session %d/%d/%d", S->c.hs_ret, S->s.hs_ret, store.n); session_close(S); free(schain); free(cchain); free(S); return; }
+			session_close(S); memset(S, 0, sizeof(*S));
+			/* session 2: the same chain, but the forger holds another private key and replays the recorded signatures */
+			{
+				int mutual = !verifier_is_client || force_mutual;
+				if (ep_setup(&S->s, protocol, 0, schain, schainlen, verifier_is_client ? &k->csign2.key : skey, tlcp ? sekey : NULL, mutual ? k->root.der : NULL, mutual ? k->root.len : 0) != 1
+					|| ep_setup(&S->c, protocol, 1, mutual ? cchain : NULL, mutual ? cchainlen : 0, mutual ? (verifier_is_client ? ckey : &k->ssign2.key) : NULL, NULL, k->root.der, k->root.len) != 1) { printf("ERR setup2"); free(schain); free(cchain); free(S); return; }
+			}
+			peer = verifier_is_client ? &S->s : &S->c;
+			peer->sig_mode = 2; peer->sigs = &store; store.next = 0;
+			S->c.seed = seed * 2 + 101; S->s.seed = seed * 2 + 102;
+		}
 		S->c.post = S->s.post = 1;
 		if (!strcmp(df, "empty-cert") && !verifier_is_client) {
 			if (protocol != TLS_protocol_tls13) S->c.empty_cert = 1;
